@@ -27,7 +27,7 @@ GInit == Init /\ h = <<>> /\ PrintT(<<"VFS", ToJson(Scenario)>>)
 
 GStep ==
     \/ \E b \in Blocks : Deliver(b) /\ Log("Deliver", b)
-    \/ BalEnable /\ Log("BalEnable", 0)
+    \/ BalEnable /\ Log("BalEnable", balOn')      \* b = index of the limit the index comes back with
     \/ BalDisable /\ Log("BalDisable", 0)
     \/ Idle /\ Log("Idle", 0)
 
